@@ -309,6 +309,8 @@ pub fn c13_families(tier: &str) -> Vec<Family> {
         add(fam(US, 3, "w12", &ORD_ONE));
         add(fam(DS, 3, "w12", &ORD_ONE));
         add(fam(US, 4, "u", &ORD_ONE));
+        add(fam(US, 4, "w12", &ORD_ONE));
+        add(fam(DS, 4, "u", &ORD_ONE));
     } else {
         for k in kinds_all() {
             add(fam(k, 2, "u", &ORD_TWO));
